@@ -75,3 +75,38 @@ def make(prop, fn, file, boxes):
 def register(prop):
     for fn, file, boxes in ONE_ARG:
         make(prop, fn, file, boxes)
+
+def register_selftest(prop):
+    @obligation('%s.ieee_backend.soundness_fuzz' % prop, fns=[], tier='thorough', backend='F')
+    def _(ctx):
+        """machinery self-check (thorough tier): (1) the transfer functions of gm2v/fpset.py against brute force on grids of doubles including all special values;
+        (2) for the 20 functions, random boxes: every concrete IEEE execution at a point of the box lies in the set computed for the box"""
+        import random, math
+        n1 = fpset._selftest()
+        rnd = random.Random(5)
+        bad, n = [], 0
+        def contains(fp, v):
+            if v != v:
+                return fp.nan
+            return any(fpset._le(lo, v) and fpset._le(v, hi) for lo, hi in fp.pieces)
+        for fn, file, boxes in ONE_ARG:
+            for _ in range(25):
+                c = 10 ** rnd.uniform(-14, 12) if rnd.random() < 0.6 else rnd.choice([1.0, 0.25, 0.5, 2.0, 100.0, 1.03, 0.97, 1.01, 0.99, 6.283185307179586, 3.141592653589793, 1.5707963267948966])
+                wdt = 10 ** rnd.uniform(-17, 0.5)
+                lo, hi = (c * (1 - wdt) if wdt < 1 else c / (1 + wdt)), c * (1 + wdt)
+                if rnd.random() < 0.2 and fn in ('dilog', 'clausen_2'):
+                    lo, hi = -hi, -lo
+                it = Interp(ctx.w, mode='float')
+                X = fpset.FP.range(lo, hi, 'x')
+                ps = it.run_paths(lambda: it.call(fn, [X.clone()], file=file), max_paths=4000)
+                R = fpset.union([r for s_, r, e in ps])
+                for k in range(10):
+                    xv = rnd.choice([lo, hi, c, math.nextafter(c, 0), math.nextafter(c, 1e300)]) if k < 4 else rnd.uniform(lo, hi)
+                    if not (lo <= xv <= hi):
+                        continue
+                    it2 = Interp(ctx.w, mode='float')
+                    v = it2.run_single(lambda: it2.call(fn, [xv], file=file))
+                    n += 1
+                    if not contains(R, float(v)):
+                        bad.append('%s(%r) = %r is outside the set %r computed for [%r, %r]' % (fn, xv, v, R, lo, hi))
+        ctx.record('', PROVED if not bad else ERROR, 'F', 0, '%d end-point cases, %d concrete executions inside their enclosures' % (n1, n) if not bad else bad[0], kind='selftest')
